@@ -45,6 +45,19 @@ def reset_logs():
 _vec_toP = np.frompyfunc(to_P, 1, 1)
 
 
+def map1(f, arr):
+    """Elementwise f over an object array, always returning an ndarray of the same shape."""
+    arr = np.asarray(arr, dtype=object)
+    out = np.empty(arr.shape, dtype=object)
+    if arr.shape == ():
+        out[()] = f(arr[()])
+        return out
+    fo, fi = out.reshape(-1), arr.reshape(-1)
+    for i in range(fi.shape[0]):
+        fo[i] = f(fi[i])
+    return out
+
+
 def _obj(a):
     """ndarray(object) of P from anything array-like."""
     if isinstance(a, SymTensor):
@@ -222,10 +235,34 @@ def _write(t, prim):
         FRAME_VIOLATIONS.append((t._stor.owner, prim))
 
 
+def _promote(t, prim):
+    """A concrete tensor that is about to receive symbolic values becomes a SymTensor
+    *in place* (same python object, so every holder of the reference sees it).  Only
+    legal when no other tensor aliases its storage (no views exist), which is checked."""
+    if isinstance(t, SymTensor):
+        return t
+    if not isinstance(t, torch.Tensor):
+        raise Unmodelled("in-place write into a non-tensor (%s)" % prim)
+    with torch._C.DisableTorchFunctionSubclass():
+        if t._is_view():
+            raise Unmodelled("in-place write of symbolic values into a view of a concrete tensor (%s)" % prim)
+        stor = t.untyped_storage()
+        if torch._C._storage_Use_Count(stor._cdata) != 2:
+            raise Unmodelled("in-place write of symbolic values into a concrete tensor that has live views (%s)" % prim)
+        if t.dtype not in (torch.double, torch.float):
+            raise Unmodelled("in-place write of symbolic values into a %s tensor (%s)" % (t.dtype, prim))
+        arr = _obj(t)
+    t.__class__ = SymTensor
+    t._arr = arr
+    t._stor = Storage()
+    t._stale = False
+    return t
+
+
 def _assign(dst, arr, prim):
     """In-place overwrite of dst's entries."""
     if not _is_sym(dst):
-        raise Unmodelled("in-place write of symbolic values into a concrete tensor (%s)" % prim)
+        _promote(dst, prim)
     _write(dst, prim)
     dst._arr[...] = arr
     return dst
@@ -235,7 +272,7 @@ def _out(res, out, prim):
     if out is None:
         return _new(res)
     if not _is_sym(out):
-        raise Unmodelled("out= buffer is a concrete tensor receiving symbolic values (%s)" % prim)
+        _promote(out, prim)
     if tuple(out._arr.shape) != tuple(np.shape(res)):
         raise Unmodelled("out= buffer needs resizing (%s): %s vs %s" % (prim, out._arr.shape, np.shape(res)))
     return _assign(out, res, prim)
@@ -391,7 +428,7 @@ def _getitem(self, idx):
 @H("__setitem__")
 def _setitem(self, idx, val):
     if not _is_sym(self):
-        raise Unmodelled("in-place write of symbolic values into a concrete tensor (__setitem__)")
+        _promote(self, "__setitem__")
     _write(self, "__setitem__")
     v = _obj(val)
     self._arr[_idx(idx)] = v if v.shape != () else v[()]
@@ -544,7 +581,7 @@ def _ibinop(op, prim):
         if alpha is not None and alpha != 1:
             B = B * to_P(alpha)
         if not _is_sym(self):
-            raise Unmodelled("in-place %s of symbolic values into a concrete tensor" % prim)
+            _promote(self, prim)
         res = op(self._arr, B)
         if np.shape(res) != self._arr.shape:
             raise RuntimeError("in-place result shape mismatch")
@@ -970,11 +1007,11 @@ class SymNd(np.ndarray):
 
     @property
     def real(self):
-        return np.frompyfunc(alg.re, 1, 1)(np.asarray(self)).view(SymNd) if self.size else self
+        return map1(alg.re, np.asarray(self)).view(SymNd)
 
     @property
     def imag(self):
-        return np.frompyfunc(alg.im, 1, 1)(np.asarray(self)).view(SymNd) if self.size else self
+        return map1(alg.im, np.asarray(self)).view(SymNd)
 
     def __array_ufunc__(self, ufunc, method, *inputs, out=None, **kwargs):
         if method != "__call__":
@@ -994,7 +1031,7 @@ class SymNd(np.ndarray):
         if nm in table:
             r = table[nm](*[(i if isinstance(i, np.ndarray) else to_P(i)) for i in ins])
         elif nm == "conjugate":
-            r = np.frompyfunc(alg.conj, 1, 1)(ins[0])
+            r = map1(alg.conj, ins[0])
         elif nm == "exp":
             r = _exp(ins[0])
         elif nm == "sqrt":
@@ -1002,10 +1039,10 @@ class SymNd(np.ndarray):
         elif nm == "log":
             r = _log(ins[0])
         elif nm in ("absolute", "fabs"):
-            r = np.frompyfunc(_modulus, 1, 1)(ins[0])
+            r = map1(_modulus, ins[0])
         elif nm == "power":
             e = inputs[1]
-            r = np.frompyfunc(lambda x: x ** e, 1, 1)(ins[0])
+            r = map1(lambda x: x ** e, ins[0])
         elif nm == "matmul":
             r = np.matmul(ins[0], ins[1])
         else:
@@ -1088,11 +1125,13 @@ class TorchProxy:
         if has_sym(data):
             def conv(d):
                 if isinstance(d, SymTensor):
-                    return d._arr
+                    return conv(d._arr)
                 if isinstance(d, SymFloat):
                     return d.p
                 if isinstance(d, (list, tuple)):
                     return [conv(x) for x in d]
+                if isinstance(d, np.ndarray):
+                    return conv(d.tolist()) if d.ndim else d[()]
                 return d
             d = conv(data)
             arr = np.empty(np.shape(np.array(d, dtype=object)), dtype=object)
@@ -1105,3 +1144,18 @@ class TorchProxy:
             PRIMS_USED["torch.tensor(sym)"] = PRIMS_USED.get("torch.tensor(sym)", 0) + 1
             return SymTensor(np.asarray(arr, dtype=object))
         return self._real.tensor(data, *a, **k)
+
+
+# torch.tensor(<symbolic ndarray / nested list of symbolic values>) has no tensor argument and
+# cannot be seen by __torch_function__; the checker process replaces the *name* torch.tensor by
+# its assumed contract (build a tensor holding exactly the given entries).  Concrete data is
+# passed to the real torch.tensor unchanged.
+_PROXY = TorchProxy(torch)
+if not getattr(torch.tensor, "_qv_patched", False):
+    _real_tensor = torch.tensor
+
+    def _tensor(data, *a, **k):
+        return _PROXY.tensor(data, *a, **k)
+    _tensor._qv_patched = True
+    _PROXY.__dict__["_real"] = type("R", (), {"tensor": staticmethod(_real_tensor)})()
+    torch.tensor = _tensor
